@@ -48,7 +48,15 @@ func AppendHandlers(ctx context.Context, info *RunInfo, handlers ...Handler) con
 	if !ok {
 		return InitCallbacks(ctx, info, handlers...)
 	}
-	return InitCallbacks(ctx, info, append(cbm.handlers, handlers...)...)
+
+	// copy before appending: cbm.handlers may have spare capacity in a backing array that is
+	// shared with the managers derived from the same parent context (sibling nodes running in
+	// parallel), an in-place append would overwrite their handlers.
+	nh := make([]Handler, 0, len(cbm.handlers)+len(handlers))
+	nh = append(nh, cbm.handlers...)
+	nh = append(nh, handlers...)
+
+	return InitCallbacks(ctx, info, nh...)
 }
 
 type Handle[T any] func(context.Context, T, *RunInfo, []Handler) (context.Context, T)
@@ -59,11 +67,14 @@ func On[T any](ctx context.Context, inOut T, handle Handle[T], timing CallbackTi
 		return ctx, inOut
 	}
 
+	// never append to mgr.handlers itself: its backing array is shared with other managers.
 	hs := make([]Handler, 0, len(mgr.handlers)+len(mgr.globalHandlers))
-	for _, handler := range append(mgr.handlers, mgr.globalHandlers...) {
-		timingChecker, ok_ := handler.(TimingChecker)
-		if !ok_ || timingChecker.Needed(ctx, mgr.runInfo, timing) {
-			hs = append(hs, handler)
+	for _, handlers := range [][]Handler{mgr.handlers, mgr.globalHandlers} {
+		for _, handler := range handlers {
+			timingChecker, ok_ := handler.(TimingChecker)
+			if !ok_ || timingChecker.Needed(ctx, mgr.runInfo, timing) {
+				hs = append(hs, handler)
+			}
 		}
 	}
 
